@@ -683,10 +683,16 @@ class FieldsJson(FieldValueBase):
             raise InvalidValue(bytes(parsable).decode('ascii', 'replace'), cls, 'value')
 
         attr_fields_dict = attr.fields_dict(cls)
+        attr_to_validator_type_dict = cls._get_attr_to_validator_type_dict(attr_fields_dict)
+
+        for attribute_name, validator_class in attr_to_validator_type_dict.items():
+            if (attr_fields_dict[attribute_name].default == attr.NOTHING and
+                    validator_class.get_canonical_name() not in raw_values):
+                raise InvalidValue(None, cls, attribute_name)
 
         return cls(**{
             attribute_name: raw_values[validator_class.get_canonical_name()]
-            for attribute_name, validator_class in cls._get_attr_to_validator_type_dict(attr_fields_dict).items()
+            for attribute_name, validator_class in attr_to_validator_type_dict.items()
             if validator_class.get_canonical_name() in raw_values
         }), len(parsable)
 
